@@ -434,6 +434,18 @@ theorem SK_setState (g0 : G8) (fuel : Nat) (s : Sess) (r : Sess × SState) (hT :
     simp only [hc, if_true] at this
     exact this
 
+/-- CheckResetTime: at most one Logon written through `dropAndSend` (fine in every state: the automaton accepts a Logon
+    anywhere on an open connection, the queue is dropped), plus bookkeeping the invariant does not read -/
+theorem SK_checkResetTime (g : G8) (s : Sess) (now : Int) (hSK : SK g s) : SK g (checkResetTime s now) := by
+  have hset : ∀ x : Sess, SK g x → SK g (x.setLastChecked now) := fun x hx => hx.congr rfl rfl rfl rfl rfl
+  unfold checkResetTime
+  repeat' split
+  all_goals (try dsimp only)
+  all_goals first
+    | exact hSK
+    | exact hset _ hSK
+    | exact hset _ ((pn_dropAndSend_logon g s (logonMsg s true) rfl).st hSK)
+
 theorem SK_stepCore (g : G8) (s : Sess) (e : Ev) (hlog : s.log = []) (happ : appSend e = true) (hS : S g s) :
     SK (g8Start g s e) (stepCore s e).1 := by
   have hSK : SK g s := by unfold SK g8Of; rw [hlog]; exact hS
@@ -490,5 +502,6 @@ theorem SK_stepCore (g : G8) (s : Sess) (e : Ev) (hlog : s.log = []) (happ : app
       exact (pn_flush g _ hl).st h1
     · exact (pn_setToSend_nil g _).st h1
   | sessionTime r sm => exact (mC s r sm (by unfold fuelOf; omega)).2 hSK
+  | resetTime now => exact SK_checkResetTime g s now hSK
 
 end Qfx.Sess
